@@ -1,6 +1,7 @@
 """C19 -- finite-difference derivatives: exactness, bounds, shapes."""
 import itertools
 import json
+import math
 from fractions import Fraction
 
 import numpy as np
@@ -9,28 +10,39 @@ import gen_helpers
 import vlib
 
 EXPLANATION = (
-    "Tables and row-selection rule are regenerated from helpers.py; Coq proves every "
-    "row exact on all polynomials up to degree #points-1 (central rows one more), the "
-    "Hessian stencil exact on bivariate total degree 3/5, and that no evaluation point "
-    "leaves the bounds when the interval is at least as wide as the stencil. The "
-    "hand-written evaluation-point model is compared exactly with the running "
-    "implementation on dyadic inputs; the property itself is also evaluated on the "
-    "implementation for dyadic and non-dyadic floats.")
+    "Tables, row-selection rule and the call-site facts of EffectivePotential are "
+    "regenerated from helpers.py / effectivePotential.py (the rest of derivative, gradient, "
+    "hessian is pinned structurally, fail closed); Coq proves every row exact on all "
+    "polynomials up to degree #points-1 (central rows one more), the Hessian stencil exact "
+    "on bivariate total degree 3/5, that the VALUE returned by the executable model of "
+    "`derivative` is the exact derivative for every x, every dx != 0 and every bounds "
+    "(derivative_value_exact, unconditional), that no evaluation point leaves the bounds "
+    "when the interval is at least as wide as the stencil, what happens when it is narrower "
+    "(known finding), and the index/slot consistency of the EffectivePotential call sites. "
+    "The executable model is compared exactly with the running implementation on dyadic "
+    "inputs (wide, narrow, negative step); the property itself is evaluated on the "
+    "implementation for non-dyadic floats, arrays, every axis selection, and histories of "
+    "one EffectivePotential object.")
 
 K_WIDE = {(2, 1): 2, (2, 2): 3, (4, 1): 4, (4, 2): 5}
 DEG = {(2, 1): 1, (2, 2): 2, (4, 1): 3, (4, 2): 4}      # guaranteed for every row
 
 
 class Rec:
-    """Polynomial with integer coefficients that records where it is evaluated."""
+    """Polynomial with integer coefficients that records EVERY call (derivative evaluates
+    f twice)."""
 
     def __init__(self, coeffs):
         self.c = coeffs
-        self.pts = []
+        self.calls = []
+
+    @property
+    def pts(self):
+        return self.calls
 
     def __call__(self, x, *args):
         x = np.asarray(x, dtype=float)
-        self.pts.append(x.copy())
+        self.calls.append(x.copy())
         r = np.zeros_like(x)
         for k in reversed(self.c):
             r = r * x + k
@@ -52,13 +64,7 @@ class Rec:
         return r
 
 
-def bound_coq(b):
-    if b is None:
-        return None
-    return "(Fin %s)" % vlib.coq_Q(b)
-
-
-def gen_case(rng, dyadic=True):
+def gen_case(rng, dyadic=True, narrow=False, negdx=False):
     order = rng.choice([2, 4])
     n = rng.choice([1, 2])
     e = rng.randint(-34, 10)
@@ -69,6 +75,10 @@ def gen_case(rng, dyadic=True):
     K = K_WIDE[(order, n)]
     kind = rng.choice(["none", "lower", "upper", "both", "both"])
     width_steps = rng.randint(K, 12) if rng.random() < 0.7 else rng.randint(K, 4000)
+    if narrow:
+        # 0 < width < K*dx, in eighths of a step (both sides of one step)
+        kind = "both"
+        width_steps = Fraction(rng.randint(1, 8 * K - 1), 8)
     base = Fraction(rng.randint(-40, 40)) * Fraction(2) ** e * 64 if dyadic else \
         Fraction(rng.uniform(-3, 3))
     zero_end = rng.random() < 0.25      # a bound exactly 0 (what derivT passes)
@@ -76,7 +86,7 @@ def gen_case(rng, dyadic=True):
     if zero_end:
         lb = Fraction(0) if rng.random() < 0.5 else -width_steps * dx
     ub = lb + width_steps * dx
-    if not dyadic:
+    if not dyadic and not narrow:
         # Non-dyadic floats: keep a relative margin 2^-20 above the critical width K*dx.
         # At EXACTLY that width with x on a step multiple the one-sided row reaches the far
         # bound exactly, and binary64 rounding of x - 3*dx can land 1 ulp outside (seen on
@@ -86,6 +96,10 @@ def gen_case(rng, dyadic=True):
         ub = Fraction(float(ub + K * dx * Fraction(1, 2 ** 20)))
         if ub - lb < K * dx * (1 + Fraction(1, 2 ** 21)):
             ub = Fraction(float(lb + (width_steps + 1) * dx))
+    if not dyadic and narrow:
+        lb, ub = Fraction(float(lb)), Fraction(float(ub))
+        if not ub > lb:
+            ub = Fraction(float(lb + dx))
     # position relative to the bounds: exactly j steps from either, or in between
     pos = rng.choice(["at", "steps", "between", "interior"])
     j = rng.randint(0, 3)
@@ -106,9 +120,17 @@ def gen_case(rng, dyadic=True):
               "both": (lb, ub)}[kind]
     deg = DEG[(order, n)]
     coeffs = [rng.randint(-9, 9) for _ in range(deg + 1 if rng.random() < 0.7 else rng.randint(1, deg + 1))]
-    return dict(order=order, n=n, x=x, dx=dx, bounds=bounds, coeffs=coeffs, pos=pos,
-                kind=kind + ("0" if zero_end else ""), dyadic=dyadic,
+    return dict(order=order, n=n, x=x, dx=-dx if negdx else dx, bounds=bounds,
+                coeffs=coeffs, pos=pos,
+                kind=kind + ("0" if zero_end else "") + ("-narrow" if narrow else "")
+                + ("-negdx" if negdx else ""), dyadic=dyadic,
                 int_bounds=rng.random() < 0.5)
+
+
+def fixed_case(order, n, x, dx, lb, ub, coeffs):
+    return dict(order=order, n=n, x=Fraction(x), dx=Fraction(dx),
+                bounds=(Fraction(lb), Fraction(ub)), coeffs=coeffs, pos="fixed",
+                kind="both-narrow", dyadic=True, int_bounds=False)
 
 
 def run_impl(case):
@@ -124,7 +146,7 @@ def run_impl(case):
                   num(b[1]) if b[1] is not None else np.inf)
     res = helpers.derivative(f, float(case["x"]), n=case["n"], order=case["order"],
                              bounds=bounds, dx=float(case["dx"]))
-    pts = [Fraction(float(p)) for p in np.asarray(f.pts[0]).ravel()]
+    pts = [Fraction(float(p)) for p in np.asarray(f.calls[0]).ravel()]
     return float(res), pts, f
 
 
@@ -138,37 +160,61 @@ def jcase(c):
 
 
 def check_direct(ctx, case, res, pts, f):
-    """The property evaluated on the implementation (exact rational bookkeeping)."""
+    """The property evaluated on the implementation (exact rational bookkeeping).  Every
+    clause is judged for every input: an out-of-bounds hit of the known class does not
+    switch off the judgement of the value."""
     order, n = case["order"], case["n"]
     x = Fraction(float(case["x"]))
     b = case["bounds"]
+    ok = True
+    # the exact step  fl(x + dx) - x
+    dxe = Fraction(float(float(x) + float(case["dx"]))) - x
+    # every call of f uses the same abscissas
+    for other in f.calls[1:]:
+        if not np.array_equal(np.asarray(other), np.asarray(f.calls[0])):
+            ctx.fail_input(
+                "derivative(order=%d,n=%d) evaluates f a second time at other abscissas "
+                "%s (first call %s)" % (order, n, np.asarray(other).ravel().tolist(),
+                                        np.asarray(f.calls[0]).ravel().tolist()),
+                dict(kind="second_call", case=jcase(case)), key="second-evaluation-differs")
+            ok = False
+    allpts = [Fraction(float(p)) for c in f.calls for p in np.asarray(c).ravel()]
     # never outside the bounds
-    if b is not None:
+    if b is not None and case["dx"] > 0:
         lo = Fraction(float(b[0])) if b[0] is not None else None
         hi = Fraction(float(b[1])) if b[1] is not None else None
-        for p in pts:
+        for p in allpts:
             if (lo is not None and p < lo) or (hi is not None and p > hi):
+                # class rule of the recorded finding: BOTH bounds finite and the interval
+                # narrower than the stencil (width < K * exact step)
+                K = K_WIDE[(order, n)]
+                narrow = lo is not None and hi is not None and hi - lo < K * dxe
                 ctx.fail_input(
-                    "derivative(order=%d,n=%d) evaluates outside the bounds at %r" %
-                    (order, n, float(p)),
+                    "derivative(order=%d,n=%d) evaluates outside the bounds at %r%s" %
+                    (order, n, float(p), " (interval narrower than the stencil)"
+                     if narrow else ""),
                     dict(kind="out_of_bounds", case=jcase(case), point=float(p).hex()),
-                    key="out-of-bounds-wide-interval")
-                return False
+                    key="narrow-bounds" if narrow else "out-of-bounds-wide-interval")
+                ok = False
+                break
     # exactness: the stencil value in exact arithmetic on the recorded points
-    dxe = Fraction(float(x + Fraction(float(case["dx"])))) - x
-    dxe = Fraction(float(Fraction(float(x)) + Fraction(float(case["dx"])))) - x
-    dxe = Fraction(float(float(x) + float(case["dx"]))) - x
+    if not math.isfinite(res):
+        ctx.fail_input("derivative(order=%d,n=%d) returns %r" % (order, n, res),
+                       dict(kind="inexact", case=jcase(case), got=repr(res)),
+                       key="non-finite-result")
+        return False
     want = f.dexact(x, n)
-    mag = sum(abs(f.exact(p)) for p in pts) / dxe ** n + abs(want)
+    mag = sum(abs(f.exact(p)) for p in pts) / abs(dxe) ** n + abs(want)
     tol = Fraction(1, 10 ** 9) * mag * 64 + Fraction(1, 10 ** 300)
     if abs(Fraction(res) - want) > tol:
         ctx.fail_input(
             "derivative(order=%d,n=%d) is not exact on a degree-%d polynomial: got %r, "
-            "exact %r" % (order, n, len(case["coeffs"]) - 1, res, float(want)),
+            "exact %r%s" % (order, n, len(case["coeffs"]) - 1, res, float(want),
+                            " (narrow interval)" if "narrow" in case["kind"] else ""),
             dict(kind="inexact", case=jcase(case), got=res, want=float(want)),
             key="inexact-%d-%d" % (order, n))
         return False
-    return True
+    return ok
 
 
 def corr_cases(ctx, cases_with_results):
@@ -201,7 +247,7 @@ def corr_cases(ctx, cases_with_results):
         # rounding model: the weighted sum is accurate to a few ulp of sum|c_i f(P_i)|/dx^n
         absval = lambda q: sum(abs(Fraction(c)) * abs(q) ** i
                                for i, c in enumerate(case["coeffs"]))
-        mag = sum(absval(p) for p in pts) / dx ** case["n"] * 20
+        mag = sum(absval(p) for p in pts) / abs(dx) ** case["n"] * 20
         tol = mag * Fraction(1, 10 ** 9) + Fraction(1, 10 ** 30)
         terms.append("chk %d %d %s %s %s %s [%s] [%s] %s %s" % (
             case["n"], case["order"], vlib.coq_Q(x), vlib.coq_Q(dx), lb, ub,
@@ -212,120 +258,215 @@ def corr_cases(ctx, cases_with_results):
     return bad
 
 
-def shapes(ctx, rng):
-    """Results have the shape of the input (plus gradient/Hessian axes)."""
+# ---------------------------------------------------------------------------------------
+# multivariate integer polynomials of the proved exactness class
+
+def make_poly(rng, nv, order, nterms=6):
+    """total degree <= 3 (order 2) / 5 (order 4) -- the class of hessian_exact -- and degree
+    <= order along each variable -- the class of gradient_exact; integer coefficients"""
+    d = 3 if order == 2 else 5
+    monos = [m for m in itertools.product(range(order + 1), repeat=nv) if sum(m) <= d]
+    terms = {m: rng.randint(-5, 5) for m in rng.sample(monos, min(len(monos), nterms))}
+    rec = []
+
+    def f(xs, *args):
+        xs = np.asarray(xs, dtype=float)
+        rec.append(xs.copy())
+        r = np.zeros(xs.shape[:-1])
+        for m, c in terms.items():
+            t = c * np.ones(xs.shape[:-1])
+            for i, p in enumerate(m):
+                t = t * xs[..., i] ** p
+            r = r + t
+        return r
+
+    def exact(point, dd):
+        tot = Fraction(0)
+        for m, c in terms.items():
+            t = Fraction(c)
+            for i, p in enumerate(m):
+                k = dd[i]
+                if k > p:
+                    t = 0
+                    break
+                for s in range(k):
+                    t *= (p - s)
+                t *= Fraction(float(point[i])) ** (p - k)
+            tot += t
+        return tot
+
+    def size(point):
+        return sum(abs(c) * math.prod((abs(float(v)) + 1) ** p for v, p in zip(point, m))
+                   for m, c in terms.items()) + 1
+
+    return terms, f, exact, size, rec
+
+
+def axis_list(a, nv):
+    if a is None:
+        return list(range(nv))
+    if isinstance(a, int):
+        return [a % nv]
+    return [k % nv for k in a]
+
+
+def shape_values(ctx, rng, ncases):
+    """Results have the shape of the input plus the gradient/Hessian axes AND hold the
+    right numbers in every slot: every lead shape with distinct points, every kind of axis
+    selection (None, int, negative, lists in non-sorted order, negative entries, repeated
+    entries), every way of giving the step (array dx, float dx, dx=None with float / array
+    scale)."""
     from WallGo import helpers
-    nfail = 0
+    for it in range(ncases):
+        order = rng.choice([2, 4])
+        nv = rng.randint(1, 3)
+        terms, f, exact, size, rec = make_poly(rng, nv, order)
+        lead = rng.choice([(), (4,), (2, 3), (1,), (2, 1, 2)])
+        dyadic = rng.random() < 0.5
+        if dyadic:
+            e = rng.randint(-10, 1)
+            x = np.array([rng.randint(-16, 16) * 2.0 ** (e + 2)
+                          for _ in range(int(np.prod(lead, dtype=int)) * nv)]
+                         ).reshape(lead + (nv,))
+            dxs = [rng.randint(1, 8) * 2.0 ** e for _ in range(nv)]
+        else:
+            x = np.array([rng.uniform(-2, 2) for _ in range(int(np.prod(lead, dtype=int)) * nv)]
+                         ).reshape(lead + (nv,))
+            dxs = [rng.uniform(0.1, 1) * 10.0 ** rng.randint(-4, -1) for _ in range(nv)]
+        if rng.random() < 0.15:
+            x = np.round(x * 4).astype(int)          # integer-typed input
+        stepkind = rng.choice(["array", "float", "scale-float", "scale-array", "list-scale"])
+        kw = {}
+        if stepkind == "array":
+            kw["dx"] = np.array(dxs)
+            eff = dxs
+        elif stepkind == "float":
+            kw["dx"] = float(dxs[0])
+            eff = [dxs[0]] * nv
+        elif stepkind == "scale-float":
+            kw["scale"] = float(rng.choice([0.5, 1.0, 2.0]))
+            eff = None
+        else:
+            sc = [rng.choice([0.5, 1.0, 2.0, 3.0]) for _ in range(nv)]
+            kw["scale"] = np.array(sc) if stepkind == "scale-array" else sc
+            eff = None
+        perm = list(range(nv))
+        rng.shuffle(perm)
+        gaxes = [None, rng.randint(-nv, nv - 1), [nv - 1], list(range(nv))[::-1], perm,
+                 [-1, 0], [0, 0], [rng.randint(-nv, nv - 1) for _ in range(rng.randint(1, 4))]]
+        flat = x.reshape(-1, nv)
 
-    def poly(xarr):
-        xarr = np.asarray(xarr)
-        return 1.0 + xarr[..., 0] ** 2 + (xarr[..., -1] if xarr.shape[-1] > 1 else 0) * \
-            xarr[..., 0]
+        def steps(k):
+            # effective step sizes (for the rounding model only)
+            if eff is not None:
+                return eff
+            s = kw["scale"]
+            s = [float(s)] * nv if isinstance(s, float) else list(np.asarray(s, dtype=float))
+            return [v * 1e-16 ** (1 / (k + order)) for v in s]
 
-    for shape in [(), (3,), (2, 3), (2, 1, 4)]:
-        x = np.asarray(np.random.default_rng(rng.randint(0, 10**6)).uniform(0, 1, shape))
-        for order, n in itertools.product((2, 4), (1, 2)):
-            r = helpers.derivative(lambda y: y ** 2 + y, x, n=n, order=order,
-                                   bounds=(0.0, 1.0), dx=1e-3)
-            ctx.count("shape")
-            if np.shape(r) != shape:
-                nfail += 1
-                ctx.fail_input("derivative result shape %s for input shape %s" %
-                               (np.shape(r), shape),
-                               dict(kind="shape", fn="derivative", shape=list(shape)),
-                               key="shape-derivative")
-    for nv in (1, 2, 3):
-        for lead in [(), (4,), (2, 3)]:
-            x = np.random.default_rng(7).uniform(-1, 1, lead + (nv,))
-            for order in (2, 4):
-                for axis in [None, 0, [nv - 1], list(range(nv))[::-1], -1]:
-                    g = helpers.gradient(poly, x, order=order, dx=1e-3, axis=axis)
-                    na = nv if axis is None else (1 if isinstance(axis, int)
-                                                  else len(axis))
-                    ctx.count("shape")
-                    if g.shape != lead + (na,):
-                        ctx.fail_input("gradient shape %s, expected %s" %
-                                       (g.shape, lead + (na,)),
-                                       dict(kind="shape", fn="gradient", nv=nv,
-                                            lead=list(lead), axis=axis),
-                                       key="shape-gradient")
-                for xa, ya in [(None, None), (0, None), ([nv - 1], [0]), (-1, 0)]:
-                    h = helpers.hessian(poly, x, order=order, dx=1e-3, xAxis=xa,
-                                        yAxis=ya)
-                    nx = nv if xa is None else (1 if isinstance(xa, int) else len(xa))
-                    ny = nv if ya is None else (1 if isinstance(ya, int) else len(ya))
-                    ctx.count("shape")
-                    if h.shape != lead + (nx, ny):
-                        ctx.fail_input("hessian shape %s, expected %s" %
-                                       (h.shape, lead + (nx, ny)),
-                                       dict(kind="shape", fn="hessian", nv=nv,
-                                            lead=list(lead), xAxis=xa, yAxis=ya),
-                                       key="shape-hessian")
-    return nfail
+        def tol(point, want, k, axes):
+            st = steps(k)
+            den = math.prod(st[a] for a in axes)
+            return 2e-13 * size(point) / den + 1e-9 * abs(want)
+
+        case0 = dict(order=order, nv=nv, terms={str(k): v for k, v in terms.items()},
+                     x=np.asarray(x).tolist(), lead=list(lead), step=stepkind,
+                     kw={k: np.asarray(v).tolist() for k, v in kw.items()},
+                     int_x=bool(np.asarray(x).dtype.kind == "i"))
+        for axis in gaxes:
+            al = axis_list(axis, nv)
+            case = dict(case0, fn="gradient", axis=axis)
+            ctx.count("shape_value", case)
+            try:
+                g = helpers.gradient(f, x, order=order, axis=axis, **kw)
+            except Exception as e:
+                ctx.fail_input("gradient raised %r for axis=%r, x.shape=%s, step=%s" % (
+                    e, axis, x.shape, stepkind), dict(kind="shape_value", case=case),
+                    key="raises-gradient")
+                continue
+            if np.shape(g) != lead + (len(al),):
+                ctx.fail_input("gradient shape %s, expected %s (axis=%r)" % (
+                    np.shape(g), lead + (len(al),), axis),
+                    dict(kind="shape_value", case=case), key="shape-gradient")
+                continue
+            gf = np.asarray(g).reshape(-1, len(al))
+            bad = None
+            for pi, point in enumerate(flat):
+                for k, a in enumerate(al):
+                    dd = [1 if j == a else 0 for j in range(nv)]
+                    want = float(exact(point, dd))
+                    if not abs(gf[pi, k] - want) <= tol(point, want, 1, [a]):
+                        bad = (pi, k, a, float(gf[pi, k]), want)
+                        break
+                if bad:
+                    break
+            if bad:
+                ctx.fail_input(
+                    "gradient(axis=%r)[point %d, slot %d] should be df/dx_%d = %r, got %r "
+                    "(x.shape=%s, step=%s)" % (axis, bad[0], bad[1], bad[2], bad[4], bad[3],
+                                               x.shape, stepkind),
+                    dict(kind="shape_value", case=case), key="value-gradient-axis")
+        haxes = [(None, None), (rng.randint(-nv, nv - 1), None), ([nv - 1], [0]), (-1, 0),
+                 (perm, list(range(nv))[::-1]), ([-1, 0], perm), ([0, 0], [-1]),
+                 ([rng.randint(-nv, nv - 1) for _ in range(rng.randint(1, 3))],
+                  [rng.randint(-nv, nv - 1) for _ in range(rng.randint(1, 3))])]
+        for xa, ya in haxes:
+            xl, yl = axis_list(xa, nv), axis_list(ya, nv)
+            case = dict(case0, fn="hessian", xAxis=xa, yAxis=ya)
+            ctx.count("shape_value", case)
+            try:
+                h = helpers.hessian(f, x, order=order, xAxis=xa, yAxis=ya, **kw)
+            except Exception as e:
+                ctx.fail_input("hessian raised %r for xAxis=%r, yAxis=%r, x.shape=%s" % (
+                    e, xa, ya, x.shape), dict(kind="shape_value", case=case),
+                    key="raises-hessian")
+                continue
+            if np.shape(h) != lead + (len(xl), len(yl)):
+                ctx.fail_input("hessian shape %s, expected %s (xAxis=%r, yAxis=%r)" % (
+                    np.shape(h), lead + (len(xl), len(yl)), xa, ya),
+                    dict(kind="shape_value", case=case), key="shape-hessian")
+                continue
+            hf = np.asarray(h).reshape(-1, len(xl), len(yl))
+            bad = None
+            for pi, point in enumerate(flat):
+                for i, a in enumerate(xl):
+                    for j, b in enumerate(yl):
+                        dd = [0] * nv
+                        dd[a] += 1
+                        dd[b] += 1
+                        want = float(exact(point, dd))
+                        if not abs(hf[pi, i, j] - want) <= tol(point, want, 2, [a, b]):
+                            bad = (pi, i, j, a, b, float(hf[pi, i, j]), want)
+                            break
+                    if bad:
+                        break
+                if bad:
+                    break
+            if bad:
+                ctx.fail_input(
+                    "hessian(xAxis=%r, yAxis=%r)[point %d, %d, %d] should be "
+                    "d2f/dx_%d dx_%d = %r, got %r (x.shape=%s, step=%s)" % (
+                        xa, ya, bad[0], bad[1], bad[2], bad[3], bad[4], bad[6], bad[5],
+                        x.shape, stepkind),
+                    dict(kind="shape_value", case=case), key="value-hessian-axis")
 
 
-def grad_hess_values(ctx, rng, ncases):
-    """gradient / hessian on random integer polynomials of the proved exactness class,
-    compared with the exact derivative; evaluation points recorded and compared with
-    the model's  x + s_k e_axis dx  (exact, dyadic)."""
+def grad_hess_points(ctx, rng, ncases):
+    """evaluation points of gradient recorded and compared with the model's
+    x + s_k e_axis dx  (exact, dyadic); f evaluated exactly once."""
     from WallGo import helpers
     for _ in range(ncases):
         order = rng.choice([2, 4])
         nv = rng.randint(1, 3)
-        d = 3 if order == 2 else 5
-        # total degree <= d
-        monos = [m for m in itertools.product(range(d + 1), repeat=nv) if sum(m) <= d]
-        terms = {m: rng.randint(-5, 5) for m in rng.sample(monos, min(len(monos), 6))}
+        terms, f, exact, size, rec = make_poly(rng, nv, order)
         e = rng.randint(-12, 3)
         dx = [rng.randint(1, 8) * 2.0 ** e for _ in range(nv)]
         x0 = [rng.randint(-16, 16) * 2.0 ** (e + 2) for _ in range(nv)]
-        rec = []
-
-        def f(xs):
-            xs = np.asarray(xs, dtype=float)
-            rec.append(xs.copy())
-            r = np.zeros(xs.shape[:-1])
-            for m, c in terms.items():
-                t = c * np.ones(xs.shape[:-1])
-                for i, p in enumerate(m):
-                    t = t * xs[..., i] ** p
-                r = r + t
-            return r
-
-        def exact(point, dd):
-            tot = Fraction(0)
-            for m, c in terms.items():
-                t = Fraction(c)
-                for i, p in enumerate(m):
-                    q = p
-                    k = dd[i]
-                    if k > q:
-                        t = 0
-                        break
-                    for s in range(k):
-                        t *= (q - s)
-                    t *= Fraction(point[i]) ** (q - k)
-                tot += t
-            return tot
-
         x = np.array(x0)
-        g = helpers.gradient(f, x, order=order, dx=np.array(dx))
-        gd = 2 if order == 2 else 4
-        scale = sum(abs(c) for c in terms.values()) * (max(abs(v) for v in x0) + 1
-                                                       ) ** d + 1
         gcase = dict(order=order, nv=nv, terms={str(k): v for k, v in terms.items()},
                      x=x0, dx=dx)
-        # gradient is exact when the degree along each variable is <= order
-        if all(max(m[i] for m in terms) <= gd for i in range(nv)):
-            for i in range(nv):
-                dd = [1 if j == i else 0 for j in range(nv)]
-                want = float(exact(x0, dd))
-                ctx.count("gradient_value", gcase)
-                if abs(g[i] - want) > 1e-13 * scale / min(dx) + 1e-9 * abs(want):
-                    ctx.fail_input("gradient inexact on polynomial: got %r want %r" %
-                                   (g[i], want), dict(kind="gradient", case=gcase, i=i),
-                                   key="inexact-gradient-%d" % order)
-        # evaluation points of gradient
+        helpers.gradient(f, x, order=order, dx=np.array(dx))
+        ctx.count("gradient_points", gcase)
         pts = rec[0].reshape(-1, nv)
         tb = helpers.FIRST_DERIV_POS[str(order)][0]
         want_pts = set()
@@ -334,24 +475,504 @@ def grad_hess_values(ctx, rng, ncases):
                 p = list(x0)
                 p[i] = x0[i] + s * dx[i]
                 want_pts.add(tuple(p))
-        if set(map(tuple, pts.tolist())) != want_pts:
+        if len(rec) != 1 or set(map(tuple, pts.tolist())) != want_pts:
             ctx.fail_input("gradient evaluation points differ from x + s_k e_i dx_i",
                            dict(kind="gradient_points", case=gcase),
                            key="gradient-points")
         rec.clear()
-        h = helpers.hessian(f, x, order=order, dx=np.array(dx))
-        for i in range(nv):
-            for j in range(nv):
-                dd = [0] * nv
-                dd[i] += 1
-                dd[j] += 1
-                want = float(exact(x0, dd))
-                ctx.count("hessian_value", gcase)
-                if abs(h[i, j] - want) > 1e-13 * scale / min(dx) ** 2 + 1e-9 * abs(want):
-                    ctx.fail_input("hessian[%d,%d] inexact: got %r want %r" %
-                                   (i, j, h[i, j], want),
-                                   dict(kind="hessian", case=gcase, i=i, j=j),
-                                   key="inexact-hessian-%d" % order)
+        helpers.hessian(f, x, order=order, dx=np.array(dx))
+        pts = rec[0].reshape(-1, nv)
+        hp = helpers.HESSIAN_POS[str(order)]
+        want_pts = set()
+        for k in range(hp.shape[1]):
+            for i in range(nv):
+                for j in range(nv):
+                    p = list(x0)
+                    p[i] += hp[0, k] * dx[i]
+                    p[j] += hp[1, k] * dx[j]
+                    want_pts.add(tuple(p))
+        if len(rec) != 1 or set(map(tuple, pts.tolist())) != want_pts:
+            ctx.fail_input("hessian evaluation points differ from x + sx_k e_i dx_i + "
+                           "sy_k e_j dx_j", dict(kind="hessian_points", case=gcase),
+                           key="hessian-points")
+
+
+# ---------------------------------------------------------------------------------------
+# helpers.derivative on arrays and on the other kinds of input
+
+def array_family(ctx, rng, ncases):
+    """One call on an ARRAY whose elements sit at lb, lb+dx/2, lb+dx, lb+3dx/2, lb+2dx,
+    interior, ..., ub (mixed stencil rows in one fancy-indexing call): shape, abscissas and
+    values per element must equal the scalar call, bit for bit; all abscissas inside."""
+    from WallGo import helpers
+    for it in range(ncases):
+        order = rng.choice([2, 4])
+        n = rng.choice([1, 2])
+        K = K_WIDE[(order, n)]
+        ints = rng.random() < 0.25
+        if ints:
+            dx, lb = 1.0, float(rng.randint(-5, 5))
+            ub = lb + 2 * K + 4
+            xs = [lb, lb + 1, lb + 2, lb + K + 1, lb + K + 2, ub - 2, ub - 1, ub]
+            xs = xs + [lb + 3] * (12 - len(xs))
+            x = np.array(xs).astype(int)
+            bounds = (int(lb), int(ub))
+        else:
+            if rng.random() < 0.5:
+                dx = rng.randint(1, 16) * 2.0 ** rng.randint(-20, 4)
+            else:
+                dx = rng.uniform(0.1, 1.0) * 10.0 ** rng.randint(-6, 1)
+            lb = rng.choice([0.0, rng.uniform(-3, 3)])
+            ub = lb + (2 * K + 3 + 2.0 ** -10) * dx
+            xs = [lb, lb + dx / 2, lb + dx, lb + 1.5 * dx, lb + 2 * dx, lb + (K + 1.25) * dx,
+                  0.5 * (lb + ub), ub - 2 * dx, ub - 1.5 * dx, ub - dx, ub - dx / 2, ub]
+            x = np.clip(np.array(xs), lb, ub)
+            bounds = rng.choice([(lb, ub), [lb, ub], np.array([lb, ub]), (lb, np.inf),
+                                 (-np.inf, ub)])
+        shape = rng.choice([(12,), (3, 4), (2, 3, 2), (12, 1)])
+        x = x.reshape(shape)
+        coeffs = [rng.randint(-9, 9) for _ in range(DEG[(order, n)] + 1)]
+        f = Rec(coeffs)
+        case = dict(order=order, n=n, x=x.tolist(), dx=dx,
+                    bounds=[float(bounds[0]), float(bounds[1])], coeffs=coeffs,
+                    shape=list(shape), ints=ints, bounds_type=type(bounds).__name__)
+        ctx.count("array", case, bucket="o%d n%d %s" % (order, n, "int" if ints else "flt"))
+        try:
+            r = helpers.derivative(f, x, n=n, order=order, bounds=bounds, dx=dx)
+        except Exception as e:
+            ctx.fail_input("derivative raised %r on an array input of shape %s" % (e, shape),
+                           dict(kind="array", case=case), key="raises")
+            continue
+        if np.shape(r) != shape:
+            ctx.fail_input("derivative result shape %s for input shape %s" %
+                           (np.shape(r), shape), dict(kind="array", case=case),
+                           key="shape-derivative")
+            continue
+        calls = list(f.calls)
+        lo, hi = float(bounds[0]), float(bounds[1])
+        if any(np.any(c < lo) or np.any(c > hi) for c in calls):
+            ctx.fail_input("derivative on an array evaluates outside the bounds %r" % (
+                [lo, hi],), dict(kind="array", case=case),
+                key="out-of-bounds-wide-interval")
+        if any(not np.array_equal(c, calls[0]) for c in calls[1:]):
+            ctx.fail_input("derivative evaluates f a second time at other abscissas "
+                           "(array input)", dict(kind="array", case=case),
+                           key="second-evaluation-differs")
+        P = calls[0].reshape(calls[0].shape[0], -1)
+        rf = np.asarray(r).reshape(-1)
+        xf = x.reshape(-1)
+        for i in range(xf.size):
+            g = Rec(coeffs)
+            xi = xf[i].item()                     # python int or float
+            ri = helpers.derivative(g, xi, n=n, order=order, bounds=bounds, dx=dx)
+            pi = np.asarray(g.calls[0]).ravel()
+            if not np.array_equal(pi, P[:, i]) or float(ri) != float(rf[i]):
+                ctx.fail_input(
+                    "derivative(f, x)[%d] differs from derivative(f, x[%d]) (x[%d]=%r): "
+                    "value %r vs %r, abscissas %s vs %s" % (
+                        i, i, i, xi, float(rf[i]), float(ri), P[:, i].tolist(),
+                        pi.tolist()), dict(kind="array", case=case, index=i),
+                    key="array-vs-scalar")
+                break
+            want = g.dexact(Fraction(xi), n)
+            dxe = Fraction(float(float(xi) + dx)) - Fraction(xi)
+            mag = sum(abs(g.exact(Fraction(float(p)))) for p in pi) / dxe ** n + abs(want)
+            if abs(Fraction(float(ri)) - want) > Fraction(64, 10 ** 9) * mag:
+                ctx.fail_input(
+                    "derivative(order=%d,n=%d) on %s x=%r inexact: got %r want %r" % (
+                        order, n, "integer-typed" if ints else "float", xi, float(ri),
+                        float(want)), dict(kind="array", case=case, index=i),
+                    key="inexact-%d-%d" % (order, n))
+                break
+
+
+def misc_inputs(ctx, rng, ncases):
+    """n = 0, extra args, vector-valued f (the coeff.reshape path used by
+    FreeEnergy.derivative), dx=None with float epsilon/scale, integer-typed scalar x."""
+    from WallGo import helpers
+    for it in range(ncases):
+        order = rng.choice([2, 4])
+        n = rng.choice([1, 2])
+        K = K_WIDE[(order, n)]
+        deg = DEG[(order, n)]
+        m = rng.randint(1, 3)
+        polys = [Rec([rng.randint(-9, 9) for _ in range(deg + 1)]) for _ in range(m)]
+        a, b = rng.randint(-4, 4), rng.randint(-4, 4)
+        nev = [0]
+
+        def vec(x, *args):
+            nev[0] += 1
+            x = np.asarray(x, dtype=float)
+            s = (args[0] * x + args[1]) if args else 0.0
+            return np.stack([p(x) + s for p in polys], axis=-1)
+
+        dx = rng.randint(1, 16) * 2.0 ** rng.randint(-12, 2)
+        lb = rng.choice([0.0, float(rng.randint(-3, 3))])
+        ub = lb + (2 * K + 2) * dx
+        xs = np.array([lb, lb + dx / 2, lb + dx, lb + 2 * dx, 0.5 * (lb + ub), ub - dx, ub])
+        xin = rng.choice([xs, xs.reshape(7, 1), float(xs[rng.randint(0, 6)])])
+        args = [a, b] if rng.random() < 0.6 else None
+        case = dict(order=order, n=n, dx=dx, bounds=[lb, ub], m=m,
+                    polys=[p.c for p in polys], args=args, x=np.asarray(xin).tolist())
+        ctx.count("misc", case)
+        for k in (n, 0):
+            for p in polys:
+                p.calls.clear()
+            try:
+                r = helpers.derivative(vec, xin, n=k, order=order, bounds=(lb, ub), dx=dx,
+                                       args=args)
+            except Exception as e:
+                ctx.fail_input("derivative raised %r on a vector-valued f (n=%d, args=%r)"
+                               % (e, k, args), dict(kind="misc", case=case), key="raises")
+                break
+            want_shape = np.shape(xin) + (m,)
+            if np.shape(r) != want_shape:
+                ctx.fail_input("derivative of a vector-valued f has shape %s, expected %s"
+                               % (np.shape(r), want_shape), dict(kind="misc", case=case),
+                               key="shape-derivative")
+                break
+            if any(np.any(c < lb) or np.any(c > ub) for p in polys for c in p.calls):
+                ctx.fail_input("derivative (vector-valued f) evaluates outside the bounds",
+                               dict(kind="misc", case=case),
+                               key="out-of-bounds-wide-interval")
+            xf = np.asarray(xin, dtype=float).reshape(-1)
+            rf = np.asarray(r).reshape(-1, m)
+            bad = False
+            for i, xv in enumerate(xf):
+                for j, p in enumerate(polys):
+                    want = p.dexact(Fraction(float(xv)), k)
+                    if args:
+                        want += [a * Fraction(float(xv)) + b, a, 0][k]
+                    mag = (sum(abs(c) for c in p.c) + abs(a) + abs(b)) * \
+                        (abs(xv) + (K + 1) * dx + 1) ** deg / dx ** k
+                    if abs(float(rf[i, j]) - float(want)) > 1e-12 * mag + 1e-9 * abs(
+                            float(want)):
+                        ctx.fail_input(
+                            "derivative(n=%d, order=%d) of component %d of a vector-valued "
+                            "f at x=%r (args=%r): got %r want %r" % (
+                                k, order, j, float(xv), args, float(rf[i, j]), float(want)),
+                            dict(kind="misc", case=case, n=k), key="inexact-vector-valued")
+                        bad = True
+                        break
+                if bad:
+                    break
+        # dx=None: the step is scale * epsilon ** (1/(n+order)); integer-typed scalar x
+        p = Rec([rng.randint(-9, 9) for _ in range(deg + 1)])
+        scale = rng.choice([0.5, 1.0, 3.0])
+        eps = rng.choice([1e-16, 1e-12, 1e-8])
+        xi = rng.choice([rng.randint(0, 5), np.int64(rng.randint(0, 5)), float(rng.randint(0, 5)),
+                         rng.uniform(0, 5)])
+        case = dict(order=order, n=n, coeffs=p.c, scale=scale, eps=eps, x=repr(xi))
+        ctx.count("misc", case)
+        try:
+            r = helpers.derivative(p, xi, n=n, order=order, bounds=(0, np.inf), epsilon=eps,
+                                   scale=scale)
+        except Exception as e:
+            ctx.fail_input("derivative raised %r with dx=None, x=%r" % (e, xi),
+                           dict(kind="misc", case=case), key="raises")
+            continue
+        pts = np.asarray(p.calls[0]).ravel()
+        step = scale * eps ** (1 / (n + order))
+        d = np.diff(pts) / step
+        if pts.min() < 0 or not np.all((np.abs(d - 1) < 1e-6) | (np.abs(d - 2) < 1e-6)):
+            ctx.fail_input("derivative with dx=None uses abscissas %s (expected spacing "
+                           "scale*eps^(1/(n+order)) = %r, never below 0)" % (
+                               pts.tolist(), step), dict(kind="misc", case=case),
+                           key="default-step")
+        want = float(p.dexact(Fraction(float(xi)), n))
+        mag = sum(abs(c) for c in p.c) * (abs(float(xi)) + 5 * step + 1) ** deg / step ** n
+        if abs(float(r) - want) > 1e-12 * mag + 1e-9 * abs(want):
+            ctx.fail_input("derivative with dx=None (scale=%r, epsilon=%r) at x=%r: got %r "
+                           "want %r" % (scale, eps, xi, float(r), want),
+                           dict(kind="misc", case=case), key="inexact-default-step")
+
+
+def step_limits(ctx, rng, ncases):
+    """Boundary of the quantifier 'every step size': the step is what the exact-step trick
+    makes of it, fl(x+dx)-x.  For dx >= ulp(x) that is non-zero and every clause is judged
+    (finite result, abscissas inside the bounds, exact up to rounding).  Below ulp(x)/2 the
+    step collapses to 0 and the result is nan on the unchanged tree: outside the quantifier
+    (|x|/dx < 2^53 is the hypothesis), logged as an observation, not judged.
+    dx < 0 is likewise outside (a step size is a magnitude); the VALUE is still judged
+    (derivative_value_exact covers every dx != 0), the abscissas are only counted."""
+    from WallGo import helpers
+    nan_seen = below = 0
+    neg_out = neg = 0
+    for it in range(ncases):
+        order = rng.choice([2, 4])
+        n = rng.choice([1, 2])
+        deg = DEG[(order, n)]
+        x = rng.uniform(0.5, 1.0) * 10.0 ** rng.randint(0, 10)
+        u = math.ulp(x)
+        coeffs = [rng.randint(-9, 9) for _ in range(deg + 1)]
+        f = Rec(coeffs)
+        dx = u * rng.choice([1.0, 1.5, 2.0, 3.0, 8.0, 1000.0])
+        lb = rng.choice([x, x - dx, x - 3 * u, 0.0])
+        case = dict(order=order, n=n, x=x.hex(), dx=dx.hex(), bounds=[lb.hex(), None],
+                    coeffs=coeffs, pos="ulp", kind="lower-ulp")
+        ctx.count("step_limits", case)
+        r = helpers.derivative(f, x, n=n, order=order, bounds=(lb, np.inf), dx=dx)
+        pts = np.asarray(f.calls[0]).ravel()
+        if not math.isfinite(float(r)):
+            ctx.fail_input("derivative returns %r for dx = %g ulp(x) (x=%r): the exact "
+                           "step fl(x+dx)-x is non-zero there" % (float(r), dx / u, x),
+                           dict(kind="ulp", case=case), key="non-finite-result")
+        elif pts.min() < lb:
+            ctx.fail_input("derivative with dx = %g ulp(x) evaluates below the bound" % (
+                dx / u), dict(kind="ulp", case=case), key="out-of-bounds-wide-interval")
+        else:
+            dxe = Fraction(float(x + dx)) - Fraction(x)
+            want = f.dexact(Fraction(x), n)
+            mag = sum(abs(f.exact(Fraction(float(p)))) for p in pts) / dxe ** n + abs(want)
+            if abs(Fraction(float(r)) - want) > Fraction(64, 10 ** 9) * mag:
+                ctx.fail_input("derivative with dx = %g ulp(x) inexact beyond rounding: got "
+                               "%r want %r" % (dx / u, float(r), float(want)),
+                               dict(kind="ulp", case=case), key="inexact-%d-%d" % (order, n))
+        # below the resolution of x: observation only
+        g = Rec(coeffs)
+        r0 = helpers.derivative(g, x, n=n, order=order, dx=u * 0.25)
+        below += 1
+        nan_seen += not math.isfinite(float(r0))
+        # negative step: value judged, abscissas counted
+        h = Rec(coeffs)
+        xs = rng.uniform(0, 3)
+        dxn = -rng.uniform(0.1, 1.0) * 10.0 ** rng.randint(-6, 0)
+        rn = helpers.derivative(h, xs, n=n, order=order, bounds=(0.0, np.inf), dx=dxn)
+        pn = np.asarray(h.calls[0]).ravel()
+        neg += 1
+        neg_out += bool(pn.min() < 0)
+        dxe = Fraction(float(xs + dxn)) - Fraction(xs)
+        want = h.dexact(Fraction(xs), n)
+        mag = sum(abs(h.exact(Fraction(float(p)))) for p in pn) / abs(dxe) ** n + abs(want)
+        if abs(Fraction(float(rn)) - want) > Fraction(64, 10 ** 9) * mag:
+            ctx.fail_input("derivative with a negative step dx=%r: value inexact (got %r, "
+                           "want %r)" % (dxn, float(rn), float(want)),
+                           dict(kind="negdx", x=xs, dx=dxn, order=order, n=n, coeffs=coeffs),
+                           key="inexact-%d-%d" % (order, n))
+    ctx.log("observation (outside the quantifier): dx < ulp(x)/2 -> non-finite result in "
+            "%d of %d calls; dx < 0 with bounds (0, inf) -> abscissas below 0 in %d of %d "
+            "calls (value exact in all)" % (nan_seen, below, neg_out, neg))
+
+
+# ---------------------------------------------------------------------------------------
+# EffectivePotential level
+
+def _mono_poly(rng, nf):
+    """monomials in (fields..., T): total degree <= 4, degree <= 4 per variable (inside the
+    exactness class of the order-4 gradient, hessian and derivT stencils)"""
+    monos = [m for m in itertools.product(range(5), repeat=nf + 1)
+             if 1 <= sum(m) <= 4 and m[nf] <= 3]
+    chosen = rng.sample(monos, min(len(monos), 8))
+    # make sure every second derivative is exercised: phi_0^2, phi_0 T, T^2 present
+    for m in ([2] + [0] * nf, [1] + [0] * (nf - 1) + [1], [0] * nf + [2], [0] * nf + [3]):
+        m = tuple(m[:nf + 1])
+        if m not in chosen:
+            chosen.append(m)
+    return chosen
+
+
+def _pot_exact(params, monos, point, dd):
+    tot = 0.0
+    for m in monos:
+        t = float(params["c" + "".join(map(str, m))])
+        for i, p in enumerate(m):
+            k = dd[i]
+            if k > p:
+                t = 0.0
+                break
+            for s in range(k):
+                t *= (p - s)
+            t *= float(point[i]) ** (p - k)
+        tot += t
+    return tot
+
+
+def make_potential_class(nf, monos):
+    from WallGo import EffectivePotential, Fields
+
+    class Poly(EffectivePotential):
+        fieldCount = nf
+        effectivePotentialError = 1e-15
+
+        def __init__(self, params):
+            self.modelParameters = dict(params)
+            self.seenT = []
+
+        def evaluate(self, fields, temperature):
+            T = np.asarray(temperature, dtype=float)
+            self.seenT.append(float(np.min(T)))
+            fs = np.asarray(fields)
+            r = 0.0
+            for m in monos:
+                t = self.modelParameters["c" + "".join(map(str, m))]
+                for i in range(nf):
+                    if m[i]:
+                        t = t * fs[..., i] ** m[i]
+                if m[nf]:
+                    t = t * T ** m[nf]
+                r = r + t
+            return r
+
+    return Poly
+
+
+ENTRY_POINTS = ["derivT", "derivField", "deriv2FieldT", "deriv2Field2", "allSecondDerivatives"]
+
+
+def _flatten(res):
+    if isinstance(res, tuple):
+        return np.concatenate([np.asarray(r, dtype=float).ravel() for r in res])
+    return np.asarray(res, dtype=float).ravel()
+
+
+def potential_history(ctx, rng, ncases):
+    """Histories on ONE EffectivePotential object: evaluate every derivative entry point,
+    mutate modelParameters IN PLACE, evaluate the same point again, re-configure the
+    derivative scales, evaluate again ... Every result is compared (a) with a FRESH object
+    carrying the current parameters and settings (must be bit-identical: the derivative
+    routines have no state), (b) with the exact derivatives of the polynomial potential.
+    Points: N field points with an array T that contains 0, dT, 2dT and interior values;
+    fieldCount 1, 2, 3; integer- and float-typed fields."""
+    import WallGo
+    from WallGo import Fields
+    for it in range(ncases):
+        nf = rng.choice([1, 2, 2, 3])
+        monos = _mono_poly(rng, nf)
+        Poly = make_potential_class(nf, monos)
+        params = {"c" + "".join(map(str, m)): float(rng.randint(-5, 5) or 1) for m in monos}
+        pot = Poly(params)
+        params0 = dict(params)
+
+        def new_settings():
+            return WallGo.VeffDerivativeSettings(
+                temperatureVariationScale=rng.choice([0.1, 1.0, 1.1, 2.0]),
+                fieldValueVariationScale=rng.choice(
+                    [1.0, 0.5, [rng.choice([0.5, 1.0, 2.0]) for _ in range(nf)]]))
+
+        settings = new_settings()
+        settings0 = [settings.temperatureVariationScale,
+                     np.asarray(settings.fieldValueVariationScale).tolist()]
+        pot.configureDerivatives(settings)
+
+        def dT_of(s):
+            return s.temperatureVariationScale * 1e-15 ** (1 / 5)
+
+        # two points: a batch with an array T (incl. T at and next to the bound 0) and a
+        # single point with scalar T
+        N = rng.choice([1, 3, 5])
+        ints = rng.random() < 0.3
+        vals = [[rng.randint(-3, 3) if ints else rng.uniform(-3, 3) for _ in range(nf)]
+                for _ in range(N)]
+        d0 = dT_of(settings)
+        Tpool = [0.0, d0, 2 * d0, 0.5 * d0, 1.5 * d0, rng.uniform(0.2, 3.0),
+                 rng.uniform(0.2, 3.0)]
+        Tarr = np.array([rng.choice(Tpool) for _ in range(N)])
+        single = [rng.randint(-3, 3) if ints else rng.uniform(-3, 3) for _ in range(nf)]
+        points = [("batch", vals, Tarr.tolist()), ("single", [single], rng.choice(Tpool))]
+        log = []
+
+        def call(obj, name, pt):
+            F = Fields(*[np.array(v) for v in pt[1]]) if len(pt[1]) > 1 else Fields(pt[1][0])
+            T = np.array(pt[2]) if isinstance(pt[2], list) else pt[2]
+            return getattr(obj, name)(F, T)
+
+        def exact(name, pt, par):
+            out = []
+            Ts = pt[2] if isinstance(pt[2], list) else [pt[2]] * len(pt[1])
+            for v, T in zip(pt[1], Ts):
+                P = [float(q) for q in v] + [float(T)]
+                e = lambda *idx: _pot_exact(par, monos, P, [idx.count(i) for i in
+                                                               range(nf + 1)])
+                if name == "derivT":
+                    out.append([e(nf)])
+                elif name == "derivField":
+                    out.append([e(i) for i in range(nf)])
+                elif name == "deriv2FieldT":
+                    out.append([e(i, nf) for i in range(nf)])
+                elif name == "deriv2Field2":
+                    out.append([e(i, j) for i in range(nf) for j in range(nf)])
+            if name == "allSecondDerivatives":
+                return np.concatenate([
+                    np.ravel(exact("deriv2Field2", pt, par)),
+                    np.ravel(exact("deriv2FieldT", pt, par)),
+                    np.ravel([[_pot_exact(par, monos, [float(q) for q in v] + [float(T)],
+                                          [0] * nf + [2])] for v, T in zip(pt[1], Ts)])])
+            return np.ravel(out)
+
+        last = [None]
+
+        def evaluate_all():
+            # every (entry point, point) pair in random order, except that the point
+            # evaluated LAST before the mutation / re-configuration comes first: a result
+            # remembered per point must not survive the change
+            pairs = [(name, pt) for name in ENTRY_POINTS for pt in points]
+            rng.shuffle(pairs)
+            pairs.sort(key=lambda q: q[1][0] != last[0])
+            for name, pt in pairs:
+                last[0] = pt[0]
+                if True:
+                    log.append(["eval", name, pt[0]])
+                    case = dict(nf=nf, monos=[list(m) for m in monos], params0=params0,
+                                settings0=settings0,
+                                params=dict(pot.modelParameters), history=list(log),
+                                points=[[p[0], p[1], p[2]] for p in points],
+                                settings=[settings.temperatureVariationScale,
+                                          np.asarray(settings.fieldValueVariationScale).tolist()],
+                                ints=ints)
+                    ctx.count("potential_history", case)
+                    pot.seenT.clear()
+                    try:
+                        got = _flatten(call(pot, name, pt))
+                    except Exception as e:
+                        ctx.fail_input("EffectivePotential.%s raised %r after the history %s"
+                                       % (name, e, log), dict(kind="history", case=case),
+                                       key="potential-raises")
+                        return False
+                    # (only derivT passes bounds; the Hessian stencils are central in T)
+                    if name == "derivT" and min(pot.seenT) < 0:
+                        ctx.fail_input(
+                            "EffectivePotential.derivT evaluates the potential at T=%r < 0"
+                            % min(pot.seenT), dict(kind="history", case=case),
+                            key="derivT-negative-temperature")
+                    fresh = Poly(dict(pot.modelParameters))
+                    fresh.configureDerivatives(settings)
+                    ref = _flatten(call(fresh, name, pt))
+                    if got.shape != ref.shape or not np.array_equal(got, ref):
+                        ctx.fail_input(
+                            "EffectivePotential.%s depends on the object's history: after "
+                            "%s it returns %s, a fresh object with the same parameters and "
+                            "settings returns %s" % (name, log, got.tolist()[:6],
+                                                     ref.tolist()[:6]),
+                            dict(kind="history", case=case), key="potential-history")
+                        return False
+                    want = exact(name, pt, pot.modelParameters)
+                    tl = 1e-6 if name in ("derivT", "derivField") else 2e-4
+                    if got.shape != want.shape or np.max(np.abs(got - want)) > tl * (
+                            1 + np.max(np.abs(want))):
+                        ctx.fail_input(
+                            "EffectivePotential.%s inexact on a quartic potential (%d "
+                            "fields, %s, T=%s): got %s want %s" % (
+                                name, nf, "int" if ints else "float", pt[2],
+                                got.tolist()[:6], want.tolist()[:6]),
+                            dict(kind="history", case=case), key="potential-" + name)
+                        return False
+            return True
+
+        ok = evaluate_all()
+        for step in range(rng.randint(2, 3)):
+            if not ok:
+                break
+            if rng.random() < 0.65:
+                ks = rng.sample(sorted(pot.modelParameters), rng.randint(1, len(monos)))
+                for k in ks:
+                    pot.modelParameters[k] = float(rng.randint(-6, 6) or 2)   # in place
+                log.append(["mutate", {k: pot.modelParameters[k] for k in ks}])
+            else:
+                settings = new_settings()
+                pot.configureDerivatives(settings)
+                log.append(["configure", settings.temperatureVariationScale,
+                            np.asarray(settings.fieldValueVariationScale).tolist()])
+            ok = evaluate_all()
 
 
 def potential_level(ctx, rng, ncases):
@@ -426,55 +1047,123 @@ def potential_level(ctx, rng, ncases):
                                key="potential-" + name)
 
 
-def known_narrow(ctx):
-    """Known finding D5: bounds narrower than the stencil."""
+# ---------------------------------------------------------------------------------------
+# recorded finding: replayed deterministically at the start of every run
+
+KNOWN_NARROW = dict(x=0.5, dx=1.0, n=1, order=2, bounds=[0.0, 1.0])
+# the Coq refutation witnesses (Props/C19.v: stays_in_bounds_narrow_refuted): the recorded
+# input, and x=3/4, dx=1, bounds (0, K-1/2) for the four tables
+WITNESSES = [(2, 1, Fraction(1, 2), 1, 0, 1)] + [
+    (o, n, Fraction(3, 4), 1, 0, K_WIDE[(o, n)] - Fraction(1, 2))
+    for (o, n) in ((2, 1), (2, 2), (4, 1), (4, 2))]
+
+
+def known_replays(ctx):
+    """Known finding `narrow-bounds` (D5).  Judged on BOTH clauses: the abscissas (expected
+    to leave the bounds: recorded finding) and the value (must be exact: Coq
+    derivative_value_exact makes no assumption on the width).  If the recorded input stops
+    leaving the bounds, that is only acceptable when the value returned is still exact;
+    otherwise it is a violation with this concrete input."""
     from WallGo import helpers
-    f = Rec([0, 1])
-    helpers.derivative(f, 0.5, n=1, order=2, bounds=(0.0, 1.0), dx=1.0)
-    pts = np.asarray(f.pts[0]).ravel()
-    if pts.min() < 0.0 or pts.max() > 1.0:
+    k = KNOWN_NARROW
+    f = Rec([1, 3])
+    try:
+        res = float(helpers.derivative(f, k["x"], n=k["n"], order=k["order"],
+                                       bounds=tuple(k["bounds"]), dx=k["dx"]))
+    except Exception as e:
+        ctx.fail_input("the recorded narrow-interval input now raises %r" % e,
+                       dict(kind="narrow", **k), key="narrow-bounds-raises")
+        return
+    pts = np.concatenate([np.asarray(c).ravel() for c in f.calls])
+    outside = bool(pts.min() < k["bounds"][0] or pts.max() > k["bounds"][1])
+    exact = abs(res - 3.0) <= 1e-12
+    rep = dict(kind="narrow", points=pts.tolist(), value=res, **k)
+    if outside:
         ctx.fail_input("derivative with bounds narrower than the stencil (width < K*dx) "
-                       "evaluates outside them, e.g. x=0.5, dx=1, bounds=(0,1)",
-                       dict(kind="narrow", x=0.5, dx=1.0, bounds=[0.0, 1.0],
-                            points=pts.tolist()),
-                       key="narrow-bounds")
-        return True
-    return False
+                       "evaluates outside them, e.g. x=0.5, dx=1, bounds=(0,1): points %s"
+                       % pts.tolist(), rep, key="narrow-bounds")
+        if not exact:
+            ctx.fail_input("recorded narrow-interval input: value %r is not the exact "
+                           "derivative 3 of 1+3x any more" % res, rep,
+                           key="narrow-bounds-value-inexact")
+    elif exact:
+        ctx.log("KNOWN-FINDING-GONE: property=C19 key=narrow-bounds: the recorded input "
+                "x=0.5, dx=1, bounds=(0,1) now stays inside the bounds AND returns the exact "
+                "derivative; move the entry to \"fixed\" in known_findings.json")
+    else:
+        ctx.fail_input(
+            "recorded narrow-interval input (x=0.5, dx=1, bounds=(0,1), f=1+3x) no longer "
+            "evaluates outside the bounds (points %s) but the value is now WRONG: %r "
+            "instead of 3" % (pts.tolist(), res), rep, key="narrow-bounds-gone-inexact")
 
 
 def run(ctx):
     src = vlib.read_src("helpers.py")
-    refuted_ok = True
+    psrc = vlib.read_src("effectivePotential.py")
+    known_replays(ctx)
+    gen_ok = True
     try:
         text, tb = gen_helpers.generate(src)
         ctx.write("Tables.v", text, sources={"file": "src/WallGo/helpers.py",
                                              "sha": vlib.sha(src)})
-        gen_ok = True
     except gen_helpers.TranslateError as e:
         ctx.log("translator failed:", e)
         ctx.broken.append("translator: %s" % e)
         gen_ok = False
-    if gen_ok:
-        ctx.prove(extra=["Tables.v"])
+    pot_ok = True
+    try:
+        ptext, facts = gen_helpers.potential_facts(psrc, src)
+        ctx.write("PotFacts.v", ptext, sources={"file": "src/WallGo/effectivePotential.py",
+                                                "sha": vlib.sha(psrc)})
+    except gen_helpers.TranslateError as e:
+        ctx.log("translator (effectivePotential.py) failed:", e)
+        ctx.broken.append("translator(effectivePotential): %s" % e)
+        pot_ok = False
+    if gen_ok and pot_ok:
+        ctx.prove(extra=["Tables.v", "PotFacts.v"])
+    elif gen_ok:
+        # still compile the tables: the correspondence files need them
+        ok, out, err = ctx.coqc(ctx.bdir + "/Tables.v")
+        gen_ok = ok
     # --- correspondence + direct validation ------------------------------------
-    ncorr = ctx.n(300, 4000)
     cases = []
-    for i in range(ncorr):
-        case = gen_case(ctx.rng, dyadic=True)
+
+    def one(case, counter):
         try:
             res, pts, f = run_impl(case)
         except Exception as e:  # implementation raised on an admissible input
             ctx.fail_input("derivative raised %r" % e, dict(kind="raise",
                                                            case=jcase(case)),
                            key="raises")
-            continue
-        ctx.count("dyadic", jcase(case), bucket="o%d n%d %s %s" % (
+            return None
+        ctx.count(counter, jcase(case), bucket="o%d n%d %s %s" % (
             case["order"], case["n"], case["kind"], case["pos"]))
         check_direct(ctx, case, res, pts, f)
-        cases.append((case, res, pts))
-        if i < 3:
-            ctx.sample(dict(case=jcase(case), result=res,
-                            points=[float(p) for p in pts]))
+        return (case, res, pts)
+
+    # the refutation witnesses of the Coq file, replayed on the implementation
+    for (o, n, x, dx, lb, ub) in WITNESSES:
+        r = one(fixed_case(o, n, x, dx, lb, ub, [1, 3, -2, 1, 2][:DEG[(o, n)] + 1]),
+                "dyadic")
+        if r:
+            cases.append(r)
+    for i in range(ctx.n(300, 4000)):
+        r = one(gen_case(ctx.rng, dyadic=True), "dyadic")
+        if r:
+            cases.append(r)
+            if i < 3:
+                ctx.sample(dict(case=jcase(r[0]), result=r[1],
+                                points=[float(p) for p in r[2]]))
+    for i in range(ctx.n(120, 1500)):
+        r = one(gen_case(ctx.rng, dyadic=True, narrow=True), "dyadic_narrow")
+        if r:
+            cases.append(r)
+    for i in range(ctx.n(60, 600)):
+        # negative step: model == implementation (points and value); bounds not judged
+        r = one(gen_case(ctx.rng, dyadic=True, negdx=True, narrow=ctx.rng.random() < 0.3),
+                "dyadic_negdx")
+        if r:
+            cases.append(r)
     if gen_ok:
         bad = corr_cases(ctx, cases)
         for b in bad:
@@ -486,36 +1175,38 @@ def run(ctx):
                         "impl result", res)
     # non-dyadic floats: bounds and exactness on the implementation only
     for i in range(ctx.n(1500, 30000)):
-        case = gen_case(ctx.rng, dyadic=False)
-        try:
-            res, pts, f = run_impl(case)
-        except Exception as e:
-            ctx.fail_input("derivative raised %r" % e, dict(kind="raise",
-                                                           case=jcase(case)),
-                           key="raises")
-            continue
-        ctx.count("float", jcase(case), bucket="o%d n%d %s %s" % (
-            case["order"], case["n"], case["kind"], case["pos"]))
-        check_direct(ctx, case, res, pts, f)
-    shapes(ctx, ctx.rng)
-    grad_hess_values(ctx, ctx.rng, ctx.n(60, 600))
+        one(gen_case(ctx.rng, dyadic=False), "float")
+    for i in range(ctx.n(250, 4000)):
+        one(gen_case(ctx.rng, dyadic=False, narrow=True), "float_narrow")
+    array_family(ctx, ctx.rng, ctx.n(40, 600))
+    misc_inputs(ctx, ctx.rng, ctx.n(40, 600))
+    step_limits(ctx, ctx.rng, ctx.n(40, 600))
+    shape_values(ctx, ctx.rng, ctx.n(40, 500))
+    grad_hess_points(ctx, ctx.rng, ctx.n(40, 400))
     potential_level(ctx, ctx.rng, ctx.n(60, 600))
-    known_narrow(ctx)
+    potential_history(ctx, ctx.rng, ctx.n(12, 150))
     ctx.cov["rule"] = (
         "cases = (order, n, x, dx, bounds, integer polynomial of the proved degree); "
         "x placed at / j steps from / between steps of either bound or interior; dx "
-        "over >10 decades; distinct = distinct case tuple; all are non-trivial "
+        "over >10 decades; wide and narrow (0 < width < K dx) intervals; negative steps; "
+        "arrays with mixed rows; every axis selection; histories on one "
+        "EffectivePotential; distinct = distinct case tuple; all are non-trivial "
         "(non-constant positions; constant polynomials allowed as degree-0 members)")
     ctx.assumptions += [
         "binary64 rounding of the weighted sum is not modelled (tolerance 6e-8 relative "
         "to sum|c_i f_i|/dx^n)",
-        "numpy broadcasting/reshape plumbing is validated by the shape runs, not proved"]
+        "'every step size' is read as: the exact step fl(x+dx)-x is non-zero (|x|/dx < 2^53) "
+        "and dx > 0; below that the unchanged code returns nan, for dx < 0 it evaluates on "
+        "the wrong side of a bound (observations logged by step_limits, not judged)",
+        "numpy broadcasting/reshape plumbing is validated by value (shape_values, "
+        "array_family, misc_inputs), not proved; the rest of derivative/gradient/hessian is "
+        "pinned structurally against the modelled reference"]
 
 
 def replay(rep):
     from WallGo import helpers
-    print(json.dumps(rep, indent=1))
-    if rep.get("kind") in ("out_of_bounds", "inexact"):
+    print(json.dumps(rep, indent=1, default=str)[:4000])
+    if rep.get("kind") in ("out_of_bounds", "inexact", "second_call"):
         c = rep["case"]
         f = Rec(c["coeffs"])
         b = c["bounds"]
@@ -524,6 +1215,74 @@ def replay(rep):
             for i, v in enumerate(b))
         r = helpers.derivative(f, float.fromhex(c["x"]), n=c["n"], order=c["order"],
                                bounds=bounds, dx=float.fromhex(c["dx"]))
-        print("result", r, "points", np.asarray(f.pts[0]).ravel().tolist(), "bounds",
-              bounds)
+        print("result", r, "exact", float(f.dexact(Fraction(float.fromhex(c["x"])), c["n"])),
+              "points", [np.asarray(p).ravel().tolist() for p in f.calls], "bounds", bounds)
+    elif rep.get("kind") == "narrow":
+        f = Rec([1, 3])
+        r = helpers.derivative(f, rep["x"], n=rep["n"], order=rep["order"],
+                               bounds=tuple(rep["bounds"]), dx=rep["dx"])
+        print("result", float(r), "(exact derivative of 1+3x: 3)", "points",
+              [np.asarray(p).ravel().tolist() for p in f.calls], "bounds", rep["bounds"])
+    elif rep.get("kind") == "shape_value":
+        c = rep["case"]
+        terms = {tuple(int(t) for t in k.strip("()").split(",") if t.strip()): v
+                 for k, v in c["terms"].items()}
+
+        def f(xs, *a):
+            xs = np.asarray(xs, dtype=float)
+            r = np.zeros(xs.shape[:-1])
+            for m, cf in terms.items():
+                t = cf * np.ones(xs.shape[:-1])
+                for i, p in enumerate(m):
+                    t = t * xs[..., i] ** p
+                r = r + t
+            return r
+        x = np.array(c["x"])
+        kw = {k: (np.array(v) if isinstance(v, list) and c["step"] != "list-scale" else v)
+              for k, v in c["kw"].items()}
+        if c["fn"] == "gradient":
+            print("gradient(axis=%r) =" % (c["axis"],),
+                  helpers.gradient(f, x, order=c["order"], axis=c["axis"], **kw).tolist())
+            print("gradient(axis=None) =",
+                  helpers.gradient(f, x, order=c["order"], **kw).tolist())
+        else:
+            print("hessian(xAxis=%r, yAxis=%r) =" % (c["xAxis"], c["yAxis"]),
+                  helpers.hessian(f, x, order=c["order"], xAxis=c["xAxis"], yAxis=c["yAxis"],
+                                  **kw).tolist())
+            print("hessian() =", helpers.hessian(f, x, order=c["order"], **kw).tolist())
+    elif rep.get("kind") == "history":
+        import WallGo
+        from WallGo import Fields
+        c = rep["case"]
+        monos = [tuple(m) for m in c["monos"]]
+        Poly = make_potential_class(c["nf"], monos)
+        def settings(v):
+            return WallGo.VeffDerivativeSettings(temperatureVariationScale=v[0],
+                                                 fieldValueVariationScale=v[1])
+
+        def call(obj, name, ptname):
+            pt = [p for p in c["points"] if p[0] == ptname][0]
+            F = Fields(*[np.array(v) for v in pt[1]]) if len(pt[1]) > 1 else Fields(pt[1][0])
+            T = np.array(pt[2]) if isinstance(pt[2], list) else pt[2]
+            return _flatten(getattr(obj, name)(F, T))
+
+        pot = Poly(c["params0"])
+        cur = c["settings0"]
+        pot.configureDerivatives(settings(cur))
+        got = None
+        for op in c["history"]:
+            if op[0] == "eval":
+                got = call(pot, op[1], op[2])
+            elif op[0] == "mutate":
+                for k, v in op[1].items():
+                    pot.modelParameters[k] = v
+            else:
+                cur = [op[1], op[2]]
+                pot.configureDerivatives(settings(cur))
+            print("  ", op if op[0] != "eval" else op + [got.tolist()[:4]])
+        fresh = Poly(dict(pot.modelParameters))
+        fresh.configureDerivatives(settings(cur))
+        last = c["history"][-1]
+        print("object with history:", last[1], "=", got.tolist())
+        print("fresh object       :", last[1], "=", call(fresh, last[1], last[2]).tolist())
     return 0
